@@ -489,7 +489,7 @@ class Interp:
         it = self.ev(st.iter, env)
         if isinstance(it, (SList, RSeq)):
             ordinal = self.loop_ordinal(st)
-            contract = self.loop_contract(ordinal)
+            contract = self.loop_contract(ordinal, it)
             if contract is None:
                 raise OutOfReach("for loop over symbolic collection without invariant "
                                  "(loop #%s of %s)" % (ordinal, self.frames[-1][0].qualname if self.frames else "?"), st)
@@ -521,13 +521,18 @@ class Interp:
                 return i
         return None
 
-    def loop_contract(self, ordinal):
+    def loop_contract(self, ordinal, it=None):
         if not self.frames or ordinal is None:
             return None
         f = self.frames[-1][0]
         key = (getattr(f.module, "relpath", None), f.qualname)
         c = self.contracts.get(key)
-        if c is None or not getattr(c, "loops", None):
+        if c is None:
+            return None
+        sel = getattr(c, "loop_selector", None)
+        if sel is not None:
+            return sel(self, ordinal, it)
+        if not getattr(c, "loops", None):
             return None
         return c.loops.get(ordinal)
 
@@ -544,7 +549,7 @@ class Interp:
         lc: LoopContract(inv=callable(ctx)->list[(name,BoolRef)], modifies=callable(ctx) havoc)."""
         P = self.prover
         fname = self.frames[-1][0].qualname
-        tag = "%s/loop%d" % (fname, ordinal)
+        tag = "%s%s/loop[%s]" % (getattr(lc, "props", "") and lc.props + "|", fname, getattr(lc, "label", ordinal))
         length = it.length if isinstance(it, SList) else it.region.length
         ctx = LoopCtx(self, env, it, length)
         lc.enter(ctx) if hasattr(lc, "enter") else None
@@ -554,16 +559,14 @@ class Interp:
             P.oblige("%s/inv-init/%s" % (tag, nm), g)
         # 2. choose: verify an arbitrary iteration, or continue after the loop
         mode = P.choice(2, "loop %s" % tag)
-        havoc_names = self.assigned_names(st.body) | self.assigned_names([ast.Expr(st.target)] if False else [])
         tnames = {n.id for n in ast.walk(st.target) if isinstance(n, ast.Name)}
         for nm in sorted((self.assigned_names(st.body) | tnames)):
-            if nm in env.vars or True:
-                env.vars[nm] = self.fresh_sym("h_" + nm)
-        lc.havoc(ctx)
+            env.vars[nm] = self.fresh_sym("h_" + nm)
         if mode == 0:
             i = self.fresh("i_" + str(ordinal), z3.IntSort())
             ctx.i = i
             P.assume(z3.And(i >= 0, i < length))
+            lc.havoc(ctx)
             for nm, g in lc.inv(ctx):
                 P.assume(g)
             x = self.seq_at(it, i)
@@ -585,6 +588,7 @@ class Interp:
         else:
             ctx.i = length
             P.assume(length >= 0)
+            lc.havoc(ctx)
             for nm, g in lc.inv(ctx):
                 P.assume(g)
             self.exec_block(st.orelse, env, module, qual)
@@ -592,7 +596,7 @@ class Interp:
     def loop_rule_while(self, st, env, module, qual, lc, ordinal):
         P = self.prover
         fname = self.frames[-1][0].qualname
-        tag = "%s/loop%d" % (fname, ordinal)
+        tag = "%s%s/loop[%s]" % (getattr(lc, "props", "") and lc.props + "|", fname, getattr(lc, "label", ordinal))
         ctx = LoopCtx(self, env, None, None)
         for nm, g in lc.inv(ctx):
             P.oblige("%s/inv-init/%s" % (tag, nm), g)
